@@ -27,7 +27,7 @@ check("C09", "exploration",
       "Reference-model monitor with exact rational arithmetic: quantise_scale / reduced_quantise_scale over a float32 mantissa sweep, all exponents, boundaries and "
       "random doubles (as python float, np.float64, np.float32): multiplier/shift ranges, 2^-31 (2^-14) relative error, value equality with a port of TFLite "
       "QuantizeMultiplier, zeroing outside the hardware range; quantise_pooling_scale for every window 1..1024 (+sampled to 65536) against rounded division on all "
-      "reachable accumulators of small windows and ties beyond; add/sub/mul scale triples against the reference kernels' derivation.",
+      "reachable accumulators of small windows and ties beyond; add/sub/mul scale triples against the reference kernels' derivation." The emitted OFM_SCALE / OPA_SCALE / OPB_SCALE registers of ADD/SUB/MUL lists and of re-quantising average pools (fused QUANTIZE) are decoded from streams of the public generator and compared with the same derivations; packed scale records of real compilations likewise.,
       "Own ports of QuantizeMultiplier and of the add/sub/mul parameter derivations (MUL set-valued over float/double arithmetic); average-pool rounding oracle is "
       "TFLite's (half away from zero), equal to round-half-up for non-negative accumulators.",
       "reference-model runtime monitor (exact arithmetic) on direct drive of the real functions", "DESIGN.md 4/C09")
@@ -36,7 +36,7 @@ check("C05", "exploration",
       "Contract on the real allocators: Greedy, LinearAlloc and HillClimb are driven through their real entry points with real Tensor/LiveRange/LiveRangeGraph "
       "objects over exhaustive small live-range sets (all ordered pairs, stratified/exhaustive triples), random 4-5 range sets and random sets of 20-600 ranges x "
       "memory limits x iteration limits; an O(n^2) oracle with inclusive end times checks disjointness, alignment, reported total and the HillClimb peak bound; a "
-      "hook on attempt_bottleneck_fix/allocate_indices asserts the iteration bound online; the same oracle wraps every allocator call of real compilations.",
+      "hook on attempt_bottleneck_fix/allocate_indices asserts the iteration bound online; the same oracle wraps every allocator call of real compilations." LinearAlloc is also driven with duplicate constants (equal weight compression configs, equivalent lookup tables) at random positions: duplicates must share the first copy's address, everything else is disjoint, the total is the highest end.,
       "Reported total is accepted within the allocator's own alignment rounding (max_end <= total < max_end + granule); small scopes are bounded as stated in the evidence.",
       "runtime contract (oracle on return values) + online iteration-bound hook", "DESIGN.md 4/C05")
 
@@ -71,8 +71,9 @@ check("C06", "exploration",
       "through api.npu_generate_register_command_stream; an independent decoder tracks the architectural register file and an independent expected-register model is compared "
       "field by field at every NPU_OP (regions, 4 bases, tiles, strides, shapes, zero points, precisions, kernel/stride/dilation bits, padding, per-core weight/scale ranges, "
       "activation, scaling, block config, IFM2 broadcast/scalar, DMA), SHRAM registers against the C15 oracle; structural clauses (one STOP last, waits attached); five classes "
-      "of illegal input must raise; every stream of real compilations is decoded and compared with the API objects the pipeline built.",
-      "The expected-register model is my reading of the ISA (DESIGN Appendix A); pooling OFM_SCALE is not re-derived; ops for which no block config exists are skipped.",
+      "of illegal input must raise; every direct stream is replayed through the kernel / DMA queue model of C04 (a conflict with an entry still outstanding is a missing wait); "
+      "every stream of real compilations is decoded and compared with the API objects the pipeline built.",
+      "The expected-register model is my reading of the ISA (DESIGN Appendix A); pooling OFM_SCALE is re-derived in C09 (quantreg part); ops for which no block config exists are skipped.",
       "runtime trace decoding + reference-model monitor", "DESIGN.md 4/C06")
 
 check("C15", "exploration",
@@ -116,9 +117,10 @@ check("C03", "exploration",
       "operator outputs define their arena extents, every read of every decoded NPU operation and DMA (exact byte footprints incl. weights, scales and SHRAM table slots) must "
       "hit defined bytes only, writes define bytes, kernel buffers invalidate table slots they cover, and every output tensor of an Ethos-U operator must be completely written. "
       "Campaign over cascade-, buffering-, LUT- and alias-heavy families with small caches; reach counters (ops replayed, bytes checked, LUT DMAs/reads) are thresholded.",
-      "Monitor 1 (defined-before-use) decides uninitialised and never-written bytes; stale or foreign-tensor bytes are decided by the writer-tag / poison-differential monitors that "
-      "ride on the NPU executor (reported with C01 until merged).",
-      "offline trace replay with shadow memory (defined-before-use)", "DESIGN.md 4/C03")
+      "Monitor 1 (defined-before-use) decides uninitialised and never-written bytes. Monitor 2 (writer tags: last writer per byte with the tensor identity / weight depth "
+      "slice from the compiler's own stripe and DMA records) decides stale and foreign-tensor bytes, inside each stream and - with one arena shadow carried through graph "
+      "inputs, CPU operators and all streams in execution order - across the operators of the inference. Monitor 3 executes the artefact twice under different poison patterns.",
+      "offline trace replay with shadow memory (defined-before-use, last-writer tags, poison differential)", "DESIGN.md 4/C03, 8.6")
 
 check("C11", "translation_validation",
       "Per-compilation artefact diff: source and output files are parsed by the independent flatbuffer reader; subgraph inputs/outputs must agree in order, name, shape, type and "
